@@ -345,6 +345,9 @@ class Diagram(cat.Arrow):
                     raise TypeError(messages.type_err(Diagram, box))
                 if not isinstance(off, int):
                     raise TypeError(messages.type_err(int, off))
+                if not 0 <= off <= len(layers.cod) - len(box.dom):
+                    raise cat.AxiomError(messages.does_not_compose(
+                        layers[-1] if layers else Id(dom), box))
                 left = layers.cod[:off] if layers else dom[:off]
                 right = layers.cod[off + len(box.dom):]\
                     if layers else dom[off + len(box.dom):]
